@@ -10,6 +10,9 @@ CHECKS = {
  "C02": ("exploration", "differential monitoring: reorged node vs linear twin vs pure ledger, byte-level served views",
          "Complete served views (tip state, index, stored blocks with supplements, element buckets incl. expiration lists, served elements with Merkle proofs, window ids, next block's expiring contracts) of a node driven through forks, reorgs and failed reorgs are compared byte for byte with a fresh node fed the final best chain linearly, at PRNG-chosen points of generated histories in all regimes, for checkpoint-initialised stores, and in the dedicated expiration-order scenario (known finding KF-C02-1).",
          "Tree-bucket nodes beyond the leaf count are excluded (never read by contract; served proofs are compared instead); v1 contracts get distinct window ends outside the order scenarios.", "§3 C02"),
+ "C04": ("exploration", "update-stream monitoring: per-poll contiguity oracle, shadow ledger folded from diffs vs pure ledger, porcupine on reached-tip polls, race detector",
+         "A population of subscribers (chunk sizes 1,2,3,7,1000,PRNG; lagging ones end up on abandoned branches) follows generated histories with reorgs and rolled-back reorgs; every UpdatesSince result is checked for bound, reverts-first contiguity and pure states; folded diffs + UpdateElementProof must reproduce the pure ledger of the tip (sets, leaf indices, proofs verifying against the accumulator); ceil(path/max) polls must reach the tip; OnReorg is checked per call (invoked iff tip changed, with the new tip). Concurrent pollers vs a submitter run under -race and their reached-tip polls are checked for linearizability against a register model of the tip.",
+         "Subscribers only start from nothing or from indices they reached themselves; pruned stores are C19's business.", "§3 C04"),
  "C05": ("exploration", "reference-model monitoring of the transaction pool after every step of generated histories, plus race detector on MineBlock vs submissions",
          "After every pool submission, block, reorg and mined block of generated histories the reported pool sequence is validated transaction by transaction by core/consensus against the pure tip ledger; blocks mined by coreutils.MineBlock are labelled by the pure oracle and must be adopted; every accepted transaction that disappears must be confirmed, have an input spent/reverted in that step (exact ledger differences of the reverted/applied blocks), or be invalid on the new tip under the oracle. MineBlock also runs against concurrent submissions under -race.",
          "Pool-full eviction is not reached; v1 contracts get globally distinct window ends.", "§3 C05"),
